@@ -89,9 +89,44 @@ def _nt(case):
     return abs(case["lon"] - T.cm_of(case["prj"], case["zone"])) > 0.01
 
 
+def enumerate_zone_boundaries(tier, seed, shard, nshards):
+    """Every zone boundary of UTM, ISG and three custom projections, at the boundary and +-1..3 adjacent floats / +-1e-12 /
+    +-1e-9 deg, automatic zoning, a few latitudes (complete: the set of boundaries is finite)."""
+    import math
+    projs = ["utm", "isg", {"fe": 0.0, "fn": 0.0, "k0": 1.0, "zw": 2, "cm1": -179.0}, {"fe": 500000.0, "fn": 10000000.0, "k0": 0.9996, "zw": 3, "cm1": 1.5},
+             {"fe": 200000.0, "fn": 5000000.0, "k0": 0.999, "zw": 8, "cm1": -176.0}]
+    i = 0
+    for prj in projs:
+        for lo, hi in T.auto_window(prj):
+            zw = S.projection_params(prj)[3]
+            nb = int(round((hi - lo) / zw))
+            for k in range(nb + 1):
+                b = lo + k * zw
+                lons = {b}
+                x = b
+                for _ in range(3):
+                    x = math.nextafter(x, math.inf)
+                    lons.add(x)
+                x = b
+                for _ in range(3):
+                    x = math.nextafter(x, -math.inf)
+                    lons.add(x)
+                lons |= {b + 1e-12, b - 1e-12, b + 1e-9, b - 1e-9, b + zw / 2.0}
+                for lon in sorted(lons):
+                    if not (lo <= lon < hi):
+                        continue
+                    for lat in ((-37.0, 12.5) if tier == "quick" else (-80.0, -37.0, -1e-9, 0.0, 12.5, 84.0)):
+                        if i % nshards == shard:
+                            yield {"lat": lat, "lon": lon, "zone": 0, "ell": ("ans" if prj == "isg" else "grs80"), "prj": prj, "kind": "float"}
+                        i += 1
+
+
 SUBCHECKS = [
     SubCheck("forward_exact_tm", check_position, strategy=T.geo_cases(), nontrivial=_nt, classes=T.tm_classes,
              quick=3000, thorough=360000, shards_quick=4, shards_thorough=16,
              seq_groups=[["ell"], ["prj", "zone", "lon"], ["lat"], ["kind"]],
              rule="geo2grid vs exact TM (0.2 mm), automatic zone/hemisphere rules, angle objects vs decimal values"),
+    SubCheck("zone_boundaries", check_position, enumerate=enumerate_zone_boundaries, nontrivial=_nt, classes=T.tm_classes,
+             shards_quick=4, shards_thorough=8, exhaustive="both",
+             rule="automatic zoning at every zone boundary (UTM, ISG, three custom projections) and within a few ulps / 1e-12 / 1e-9 deg of it"),
 ]
